@@ -145,7 +145,6 @@ theorem C07_vlq (n : Nat) (rest : List Nat) : readVlq (encVlq n ++ rest) = .ok (
     message, normal meta type or unknown meta with byte data, payload within the reader's
     1 000 000-byte limit, natural-number delta), and every track chunk fits a 32-bit length. -/
 structure StorableFile (cs : Charset) (f : MFile) : Prop where
-  charset : cs ≠ .utf8
   events : ∀ tr ∈ f.tracks, ∀ e ∈ tr, StorableT cs e
   chunk : ∀ tr ∈ f.tracks, ∀ b, writeTrack cs tr = .ok b → b.length < 4294967296
 
@@ -181,7 +180,7 @@ theorem C07_roundtrip (cs : Charset) (f : MFile) (hs : StorableFile cs f) (bytes
             obtain ⟨a1, a2, rfl, hsa⟩ := s16_i16be _ _ ha
             obtain ⟨b1, b2, rfl, hsb⟩ := s16_i16be _ _ hb
             obtain ⟨c1, c2, rfl, hsc⟩ := s16_i16be _ _ hc
-            have hrt := readTracks_write cs hs.charset f.tracks body hs.events hs.chunk hbody
+            have hrt := readTracks_write cs f.tracks body hs.events hs.chunk hbody
             simp only [readFile, mthd, u32be, be32, cons_append, nil_append, length_cons, take, drop]
             simp only [hsa, hsb, hsc, Int.toNat_natCast, hrt, bind, Except.bind, pure, Except.pure]
             simp
@@ -221,18 +220,18 @@ theorem C07_saved_fixed_point (cs : Charset) (f : MFile) (hs : StorableFile cs f
     writeFile cs f.norm = .ok bytes := by
   have hwn : writeFile cs f.norm = .ok bytes := by
     rw [← hw]
-    simp only [writeFile, MFile.norm, length_map, writeTracks_normT cs hs.charset f.tracks hs.events]
-  refine ⟨?_, ⟨hs.charset, ?_, ?_⟩, hwn⟩
+    simp only [writeFile, MFile.norm, length_map, writeTracks_normT cs f.tracks hs.events]
+  refine ⟨?_, ⟨?_, ?_⟩, hwn⟩
   · rw [C07_roundtrip cs f hs bytes hw]
     simp [Except.map, LFile.toM, MFile.norm, normT]
   · intro tr htr
     simp only [MFile.norm, mem_map] at htr
     obtain ⟨t, ht, rfl⟩ := htr
-    exact (writeTrack_normT cs hs.charset t (hs.events t ht)).2
+    exact (writeTrack_normT cs t (hs.events t ht)).2
   · intro tr htr b hb
     simp only [MFile.norm, mem_map] at htr
     obtain ⟨t, ht, rfl⟩ := htr
-    rw [(writeTrack_normT cs hs.charset t (hs.events t ht)).1] at hb
+    rw [(writeTrack_normT cs t (hs.events t ht)).1] at hb
     exact hs.chunk t ht b hb
 
 /-- **Fixed point of load-save-load, for ARBITRARY loadable bytes.**  Take any byte string (not
@@ -242,14 +241,14 @@ theorem C07_saved_fixed_point (cs : Charset) (f : MFile) (hs : StorableFile cs f
     same bytes and loads to itself: from the second round on nothing changes.  Hypotheses that
     are limits of the format, not of the code: a sysex payload exactly at the reader's 1 000 000
     byte limit and unterminated, and track chunks of 4 GiB, are excluded. -/
-theorem C07_fixed_point (cs : Charset) (hcs : cs ≠ .utf8) (b : List Nat) (hb : Bytes b) (L : LFile)
+theorem C07_fixed_point (cs : Charset) (b : List Nat) (hb : Bytes b) (L : LFile)
     (hl : readFile cs false b = .ok L) (b2 : List Nat) (hw : writeFile cs L.toM = .ok b2)
     (hsx : ∀ t ∈ L.tracks, ∀ e ∈ t, ∀ d, e.ev = .msg (.sysex d) → d.length + 1 ≤ maxMessageLength)
     (hfit : ∀ tr ∈ L.toM.tracks, ∀ bt, writeTrack cs tr = .ok bt → bt.length < 4294967296) :
     StorableFile cs L.toM ∧
     (readFile cs false b2).map LFile.toM = .ok L.toM.norm ∧
     StorableFile cs L.toM.norm ∧ writeFile cs L.toM.norm = .ok b2 := by
-  have hsound := readFile_sound cs hcs b hb L hl
+  have hsound := readFile_sound cs b hb L hl
   have hbody : ∃ body, writeTracks cs L.toM.tracks = .ok body := by
     unfold writeFile at hw
     split at hw
@@ -272,14 +271,14 @@ theorem C07_fixed_point (cs : Charset) (hcs : cs ≠ .utf8) (b : List Nat) (hb :
             | ok body => exact ⟨body, rfl⟩
   obtain ⟨body, hbody⟩ := hbody
   have hs : StorableFile cs L.toM := by
-    refine ⟨hcs, ?_, hfit⟩
+    refine ⟨?_, hfit⟩
     intro tr htr e he
     obtain ⟨bt, hbt⟩ := writeTracks_mem cs _ body hbody tr htr
     have hnr := (C07_written_is_storable cs tr bt hbt e he).2
     simp only [LFile.toM, mem_map] at htr
     obtain ⟨t, ht, rfl⟩ := htr
     obtain ⟨le, hle, rfl⟩ := mem_map.mp he
-    refine ⟨sound_storable cs hcs le.ev (hsound t ht le hle) hnr (fun d hd => hsx t ht le hle d hd), le.delta, rfl⟩
+    refine ⟨sound_storable cs le.ev (hsound t ht le hle) hnr (fun d hd => hsx t ht le hle d hd), le.delta, rfl⟩
   exact ⟨hs, C07_saved_fixed_point cs L.toM hs b2 hw⟩
 
 /-- a file not written by mido (padded delta, an end_of_track in the middle, running status kept
@@ -319,13 +318,13 @@ example : StorableFile .latin1 sampleFile ∧
   have ht1 : writeTrack .latin1 (sampleFile.tracks[1]) = .ok
       [77, 84, 114, 107, 0, 0, 0, 23, 0, 240, 4, 1, 2, 3, 247, 5, 255, 96, 2, 9, 255, 129, 128, 0, 225, 0, 0, 0, 255, 47, 0] := by
     decide +kernel
-  refine ⟨⟨by decide, ?_, ?_⟩, by decide +kernel⟩
+  refine ⟨⟨?_, ?_⟩, by decide +kernel⟩
   · intro tr htr e he
     simp only [sampleFile, mem_cons, not_mem_nil, or_false] at htr
     rcases htr with rfl | rfl <;> simp only [mem_cons, not_mem_nil, or_false] at he
     · rcases he with rfl | rfl | rfl | rfl
-      · exact ⟨⟨by decide, by decide, by decide, by intro p hp; cases hp; decide⟩, 0, rfl⟩
-      · exact ⟨⟨by decide, by decide, by decide, by intro p hp; cases hp; decide⟩, 7, rfl⟩
+      · exact ⟨⟨by decide, by decide, by intro p hp; cases hp; decide⟩, 0, rfl⟩
+      · exact ⟨⟨by decide, by decide, by intro p hp; cases hp; decide⟩, 7, rfl⟩
       · exact ⟨⟨by decide, by decide, by intro d hd; cases hd⟩, 3, rfl⟩
       · exact ⟨⟨by decide, by decide, by intro d hd; cases hd⟩, 200, rfl⟩
     · rcases he with rfl | rfl | rfl
@@ -339,5 +338,36 @@ example : StorableFile .latin1 sampleFile ∧
       rw [ht0] at hb; cases hb; decide
     · simp only [sampleFile, getElem_cons_succ, getElem_cons_zero] at ht1
       rw [ht1] at hb; cases hb; decide
+
+/-- a file with non-Latin text under `charset='utf-8'`: 'é€𝄞' as a track name -/
+def utf8File : MFile := ⟨0, 480, [[⟨.metaEv ⟨.track_name, [.str [233, 8364, 119070]]⟩, .int 0⟩,
+  ⟨.msg (.chan3 .note_on 9 36 100), .int 480⟩]]⟩
+
+/-- `C07_roundtrip` applies to it (the charset is no longer restricted), and these are its bytes -/
+example : StorableFile .utf8 utf8File ∧
+    writeFile .utf8 utf8File = .ok
+      [77, 84, 104, 100, 0, 0, 0, 6, 0, 0, 0, 1, 1, 224,
+       77, 84, 114, 107, 0, 0, 0, 22, 0, 255, 3, 9, 0xC3, 0xA9, 0xE2, 0x82, 0xAC, 0xF0, 0x9D, 0x84, 0x9E,
+       131, 96, 153, 36, 100, 0, 255, 47, 0] := by
+  have ht0 : writeTrack .utf8 (utf8File.tracks[0]) = .ok
+      [77, 84, 114, 107, 0, 0, 0, 22, 0, 255, 3, 9, 0xC3, 0xA9, 0xE2, 0x82, 0xAC, 0xF0, 0x9D, 0x84, 0x9E,
+       131, 96, 153, 36, 100, 0, 255, 47, 0] := by decide +kernel
+  refine ⟨⟨?_, ?_⟩, by decide +kernel⟩
+  · intro tr htr e he
+    simp only [utf8File, mem_cons, not_mem_nil, or_false] at htr
+    subst htr
+    simp only [mem_cons, not_mem_nil, or_false] at he
+    rcases he with rfl | rfl
+    · refine ⟨⟨by decide, by decide, ?_⟩, 0, rfl⟩
+      intro p hp
+      have : metaPayload .utf8 ⟨.track_name, [.str [233, 8364, 119070]]⟩ = .ok [0xC3, 0xA9, 0xE2, 0x82, 0xAC, 0xF0, 0x9D, 0x84, 0x9E] := by
+        decide +kernel
+      rw [this] at hp; cases hp; decide
+    · exact ⟨⟨by decide, by decide, by intro d hd; cases hd⟩, 480, rfl⟩
+  · intro tr htr b hb
+    simp only [utf8File, mem_cons, not_mem_nil, or_false] at htr
+    subst htr
+    simp only [utf8File, getElem_cons_zero] at ht0
+    rw [ht0] at hb; cases hb; decide
 
 end Mido
